@@ -1,5 +1,563 @@
 import CpModel.Cache
-/-! C15 — caching tool (theorems under construction). -/
+import CpProofs.C15Lemmas
+/-!
+  C15 — cached responses are genuine, fresh and never cross Vary variants.
+
+  Theorems are about `CpModel.Cache` (the transcription of `MemoryCache`, `caching.get`,
+  `caching.tee_output`, `CachingTool._wrapper`).  They quantify over *all* configurations and
+  *all* histories (lists of requests, clock advances and expiry sweeps, no length bound): the
+  store invariant `Inv` is established by induction over the history.
+
+  `exec cfg {} ops` is the list of request events `⟨request, handler plan, outcome, time⟩`.
+  A `hit g a` outcome means: served from the cache, generation `g`, header `Age: a`.
+-/
 namespace CpProofs.C15
-open CpModel.Cache
+open CpModel.Cache CpModel
+
+/-! ### the store invariant -/
+
+/-- The producing request and response allowed the response to be stored. -/
+def Storable (cfg : Cfg) (e : Ev) : Prop :=
+  sNoStore ∉ e.r.cc ∧ e.p.noStore = false ∧ e.p.pragmaNoCache = false ∧ 0 < e.p.size ∧
+    e.p.size < cfg.maxobjSize ∧ e.r.method ∉ cfg.invalid
+
+/-- `L` is the log of the request events so far.  `P uri sel` is whatever is known about the
+    selecting-header list of a resource, `Q r p` about the (request, plan) pairs of the history. -/
+structure Inv (cfg : Cfg) (P : Str → List Str → Prop) (Q : Req → Plan → Prop) (w : World) (L : List Ev) : Prop where
+  vals : ∀ uri uc key v, aget w.cache.store uri = some uc → aget uc.slots key = some (.val v) →
+    ∃ e ∈ L, e.out = .miss v.gen true ∧ e.r.uri = uri ∧ key = uc.sel.map (hget e.r) ∧
+      v.created = e.t ∧ Storable cfg e
+  sels : ∀ uri uc, aget w.cache.store uri = some uc → P uri uc.sel
+  times : ∀ e ∈ L, e.t ≤ w.now
+  evs : ∀ e ∈ L, Q e.r e.p
+  gens : ∀ e ∈ L, ∀ g c, e.out = .miss g c → g < w.nextGen
+
+variable {cfg : Cfg} {P : Str → List Str → Prop} {Q : Req → Plan → Prop}
+
+theorem Inv.init : Inv cfg P Q {} [] where
+  vals := by intro uri uc key v h; simp [aget] at h
+  sels := by intro uri uc h; simp [aget] at h
+  times := by simp
+  evs := by simp
+  gens := by simp
+
+/-- the store shrinks, time and the generation counter move forward -/
+theorem Inv.mono {w w' : World} {L : List Ev} (h : Inv cfg P Q w L)
+    (hs : Shrinks w'.cache.store w.cache.store) (hn : w.now ≤ w'.now) (hg : w.nextGen ≤ w'.nextGen) :
+    Inv cfg P Q w' L where
+  vals := by
+    intro uri uc' key v h1 h2
+    obtain ⟨uc, g1, s1, v1⟩ := hs uri uc' h1
+    obtain ⟨e, he, a, b, c, d⟩ := h.vals uri uc key v g1 (v1 key v h2)
+    exact ⟨e, he, a, b, by rw [← s1]; exact c, d⟩
+  sels := by
+    intro uri uc' h1
+    obtain ⟨uc, g1, s1, _⟩ := hs uri uc' h1
+    rw [← s1]
+    exact h.sels uri uc g1
+  times := fun e he => Nat.le_trans (h.times e he) hn
+  evs := h.evs
+  gens := fun e he g c hm => Nat.lt_of_lt_of_le (h.gens e he g c hm) hg
+
+/-- one more event in the log -/
+theorem Inv.snoc {w : World} {L : List Ev} (h : Inv cfg P Q w L) (e : Ev) (ht : e.t ≤ w.now) (hq : Q e.r e.p)
+    (hg : ∀ g c, e.out = .miss g c → g < w.nextGen) : Inv cfg P Q w (L ++ [e]) where
+  vals := by
+    intro uri uc key v h1 h2
+    obtain ⟨e', he, rest⟩ := h.vals uri uc key v h1 h2
+    exact ⟨e', List.mem_append_left _ he, rest⟩
+  sels := h.sels
+  times := by
+    intro e' he
+    rcases List.mem_append.mp he with he | he
+    · exact h.times e' he
+    · simp at he; subst he; exact ht
+  evs := by
+    intro e' he
+    rcases List.mem_append.mp he with he | he
+    · exact h.evs e' he
+    · simp at he; subst he; exact hq
+  gens := by
+    intro e' he
+    rcases List.mem_append.mp he with he | he
+    · exact h.gens e' he
+    · simp at he; subst he; exact hg
+
+/-- the handler ran: generation counter bumped, store not larger, event logged -/
+theorem Inv.handler {w : World} {L : List Ev} (hI : Inv cfg P Q w L) (c' : Cache)
+    (hc' : Shrinks c'.store w.cache.store) (r : Req) (p : Plan) (cb : Bool) (hQ : Q r p) :
+    Inv cfg P Q { w with cache := c', nextGen := w.nextGen + 1 } (L ++ [⟨r, p, .miss w.nextGen cb, w.now⟩]) := by
+  have h1 : Inv cfg P Q { w with cache := c', nextGen := w.nextGen + 1 } L :=
+    Inv.mono hI hc' (Nat.le_refl _) (Nat.le_succ _)
+  exact Inv.snoc h1 _ (Nat.le_refl _) hQ (by intro g c hgc; cases hgc; exact Nat.lt_succ_self _)
+
+/-- handler + tee: the one place where a response enters the store -/
+theorem runHandler_inv {w : World} {L : List Ev} (hI : Inv cfg P Q w L) (c : Cache) (r : Req) (p : Plan)
+    (hc : Shrinks c.store w.cache.store) (hm : r.method ∉ cfg.invalid)
+    (hP : P r.uri (sortDesc p.vary)) (hQ : Q r p) :
+    Inv cfg P Q (runHandler cfg w c r p).1 (L ++ [⟨r, p, (runHandler cfg w c r p).2, w.now⟩]) := by
+  have hsn : Inv cfg P Q { w with nextGen := w.nextGen + 1 } (L ++ [⟨r, p, .miss w.nextGen true, w.now⟩]) :=
+    Inv.handler hI w.cache (Shrinks.refl _) r p true hQ
+  have shrinkCase : ∀ c' : Cache, Shrinks c'.store w.cache.store →
+      Inv cfg P Q { w with cache := c', nextGen := w.nextGen + 1 } (L ++ [⟨r, p, .miss w.nextGen true, w.now⟩]) :=
+    fun c' hc' => Inv.handler hI c' hc' r p true hQ
+  simp only [runHandler, tee]
+  split
+  · exact shrinkCase c hc
+  · rename_i hns
+    split
+    · exact shrinkCase c hc
+    · rename_i hfl
+      split
+      · exact shrinkCase _ ((delete_shrinks c r.uri).trans hc)
+      · rename_i hsz
+        refine ⟨?_, ?_, hsn.times, hsn.evs, hsn.gens⟩
+        · intro uri uc' key v h1 h2
+          dsimp only at h1
+          have newcase : uri = r.uri → key = uc'.sel.map (hget r) → v = ⟨w.nextGen, w.now⟩ →
+              p.size < cfg.maxobjSize →
+              ∃ e ∈ L ++ [⟨r, p, .miss w.nextGen true, w.now⟩], e.out = .miss v.gen true ∧ e.r.uri = uri ∧
+                key = uc'.sel.map (hget e.r) ∧ v.created = e.t ∧ Storable cfg e := by
+            intro hu hk hv hlim
+            refine ⟨⟨r, p, .miss w.nextGen true, w.now⟩, by simp, ?_, hu.symm, hk, ?_, ?_⟩
+            · rw [hv]
+            · rw [hv]
+            · refine ⟨hns, ?_, ?_, Nat.pos_of_ne_zero hsz, hlim, hm⟩
+              · cases hb : p.noStore <;> simp_all
+              · cases hb : p.pragmaNoCache <;> simp_all
+          rcases put_cases cfg c r p w.nextGen w.now uri uc' h1 with ⟨uc, g1, s1, v1⟩ | ⟨hu, _, _, v1⟩
+          · rcases v1 key v h2 with hold | ⟨hu, hk, hv, hlim⟩
+            · obtain ⟨uc0, g0, s0, v0⟩ := hc uri uc g1
+              obtain ⟨e, he, a, b, c', d⟩ := hI.vals uri uc0 key v g0 (v0 key v hold)
+              exact ⟨e, List.mem_append_left _ he, a, b, by rw [← s1, ← s0]; exact c', d⟩
+            · exact newcase hu hk hv hlim
+          · obtain ⟨hk, hv, hlim⟩ := v1 key v h2
+            exact newcase hu hk hv hlim
+        · intro uri uc' h1
+          dsimp only at h1
+          rcases put_cases cfg c r p w.nextGen w.now uri uc' h1 with ⟨uc, g1, s1, _⟩ | ⟨hu, _, hsel, _⟩
+          · obtain ⟨uc0, g0, s0, _⟩ := hc uri uc g1
+            rw [← s1, ← s0]
+            exact hI.sels uri uc0 g0
+          · rw [hu, hsel]
+            exact hP
+
+theorem runHandler_out (w : World) (c : Cache) (r : Req) (p : Plan) :
+    (runHandler cfg w c r p).2 = .miss w.nextGen true := rfl
+
+/-- every request preserves the invariant, with its event appended to the log -/
+theorem request_inv {w : World} {L : List Ev} (hI : Inv cfg P Q w L) (r : Req) (p : Plan)
+    (hP : P r.uri (sortDesc p.vary)) (hQ : Q r p) :
+    Inv cfg P Q (request cfg w r p).1 (L ++ [⟨r, p, (request cfg w r p).2, w.now⟩]) := by
+  have same : ∀ out : Outcome, (∀ g c, out ≠ .miss g c) → Inv cfg P Q w (L ++ [⟨r, p, out, w.now⟩]) := by
+    intro out hne
+    apply Inv.snoc hI
+    · exact Nat.le_refl _
+    · exact hQ
+    · intro g c hgc
+      exact absurd hgc (hne g c)
+  unfold request
+  split
+  · -- invalidating method
+    exact Inv.handler hI _ (delete_shrinks _ _) r p false hQ
+  · rename_i hm
+    split
+    · exact runHandler_inv hI _ r p (Shrinks.refl _) hm hP hQ
+    · split
+      · exact runHandler_inv hI _ r p (get_shrinks _ _) hm hP hQ
+      · split
+        · exact same _ (by intro g c h; cases h)
+        · exact runHandler_inv hI _ r p (Shrinks.refl _) hm hP hQ
+        · split
+          · exact runHandler_inv hI _ r p (Shrinks.refl _) hm hP hQ
+          · exact same _ (by intro g c h; cases h)
+
+/-! ### what a hit is -/
+
+/-- every outcome `miss g _` carries the current generation counter -/
+theorem request_miss_gen (w : World) (r : Req) (p : Plan) (g : Nat) (c : Bool)
+    (h : (request cfg w r p).2 = .miss g c) : g = w.nextGen := by
+  unfold request at h
+  split at h
+  · cases h; rfl
+  · split at h
+    · cases h; rfl
+    · split at h
+      · cases h; rfl
+      · split at h
+        · cases h
+        · cases h; rfl
+        · split at h
+          · cases h; rfl
+          · cases h
+
+/-- The meaning of "served from the cache" for one event `e`, given the earlier events `L`;
+    and: a handler run gets a generation number no earlier event has. -/
+def Good (cfg : Cfg) (P : Str → List Str → Prop) (Q : Req → Plan → Prop) (L : List Ev) (e : Ev) : Prop :=
+  (∀ g a, e.out = .hit g a →
+    ∃ e' ∈ L, ∃ sel, e'.out = .miss g true ∧ e'.r.uri = e.r.uri ∧ P e.r.uri sel ∧ Q e'.r e'.p ∧
+      (∀ h ∈ sel, hget e.r h = hget e'.r h) ∧ e'.t ≤ e.t ∧ a = (e.t - e'.t) / tps ∧ a ≤ cfg.delay ∧
+      (∀ n, scanCC (sortDesc e.r.cc) = .proceed (some n) → a ≤ n) ∧
+      (∃ m, scanCC (sortDesc e.r.cc) = .proceed m) ∧ Storable cfg e') ∧
+  (∀ g c, e.out = .miss g c → ∀ e' ∈ L, ∀ g' c', e'.out = .miss g' c' → g' < g)
+
+theorem request_good {w : World} {L : List Ev} (hI : Inv cfg P Q w L) (r : Req) (p : Plan) :
+    Good cfg P Q L ⟨r, p, (request cfg w r p).2, w.now⟩ := by
+  refine ⟨?_, ?_⟩
+  · intro g a hout
+    dsimp only at hout
+    unfold request at hout
+    split at hout
+    · cases hout
+    · split at hout
+      · cases hout
+      · split at hout
+        · cases hout
+        · rename_i v hv
+          split at hout
+          · cases hout
+          · cases hout
+          · rename_i m hscan
+            split at hout
+            · cases hout
+            · rename_i hage
+              cases hout
+              obtain ⟨_, uc, hg, hk⟩ := get_some _ _ _ hv
+              obtain ⟨e', he', hmiss, huri, hkey, hcr, hst⟩ := hI.vals r.uri uc _ v hg hk
+              refine ⟨e', he', uc.sel, hmiss, huri, hI.sels _ _ hg, hI.evs e' he', ?_, hI.times e' he',
+                by rw [hcr], ?_, ?_, ⟨m, hscan⟩, hst⟩
+              · exact List.map_inj_left.mp hkey
+              · have : (w.now - v.created) / tps ≤ effMaxAge cfg m := Nat.le_of_not_gt hage
+                cases m with
+                | none => simpa [effMaxAge] using this
+                | some n => simp only [effMaxAge] at this; omega
+              · intro n hn
+                rw [hscan] at hn
+                cases hn
+                have : (w.now - v.created) / tps ≤ effMaxAge cfg (some n) := Nat.le_of_not_gt hage
+                simp only [effMaxAge] at this
+                omega
+  · intro g c hout e' he' g' c' hm'
+    dsimp only at hout
+    rw [request_miss_gen w r p g c hout]
+    exact hI.gens e' he' g' c' hm'
+
+/-! ### all histories -/
+
+def AllGood (cfg : Cfg) (P : Str → List Str → Prop) (Q : Req → Plan → Prop) : List Ev → List Ev → Prop
+  | _, [] => True
+  | L, e :: es => Good cfg P Q L e ∧ AllGood cfg P Q (L ++ [e]) es
+
+theorem AllGood.at {L es : List Ev} (h : AllGood cfg P Q L es) (pre : List Ev) (e : Ev) (post : List Ev)
+    (heq : es = pre ++ e :: post) : Good cfg P Q (L ++ pre) e := by
+  induction pre generalizing L es with
+  | nil =>
+    subst heq
+    simpa using h.1
+  | cons x xs ih =>
+    subst heq
+    have := ih h.2 rfl
+    simpa using this
+
+theorem step_inv {w : World} {L : List Ev} (hI : Inv cfg P Q w L) (op : Op)
+    (hPQ : ∀ r p, Q r p → P r.uri (sortDesc p.vary)) (hop : ∀ r p, op = .req r p → Q r p) :
+    match (step cfg w op).2 with
+    | some e => Good cfg P Q L e ∧ Inv cfg P Q (step cfg w op).1 (L ++ [e])
+    | none => Inv cfg P Q (step cfg w op).1 L := by
+  cases op with
+  | req r p =>
+    simp only [step]
+    exact ⟨request_good hI r p, request_inv hI r p (hPQ r p (hop r p rfl)) (hop r p rfl)⟩
+  | tick n =>
+    simp only [step]
+    exact Inv.mono hI (Shrinks.refl _) (Nat.le_add_right _ _) (Nat.le_refl _)
+  | sweep =>
+    simp only [step]
+    exact Inv.mono hI (sweep_shrinks _ _) (Nat.le_refl _) (Nat.le_refl _)
+
+theorem exec_allGood (hPQ : ∀ r p, Q r p → P r.uri (sortDesc p.vary)) (ops : List Op)
+    (hops : ∀ r p, Op.req r p ∈ ops → Q r p) (w : World) (L : List Ev) (hI : Inv cfg P Q w L) :
+    AllGood cfg P Q L (exec cfg w ops) := by
+  induction ops generalizing w L with
+  | nil => trivial
+  | cons op ops ih =>
+    have hs := step_inv hI op hPQ (fun r p h => hops r p (by simp [h]))
+    have hops' : ∀ r p, Op.req r p ∈ ops → Q r p := fun r p h => hops r p (List.mem_cons_of_mem _ h)
+    simp only [exec]
+    split
+    · rename_i e he
+      rw [he] at hs
+      exact ⟨hs.1, ih hops' _ _ hs.2⟩
+    · rename_i he
+      rw [he] at hs
+      exact ih hops' _ _ hs
+
+/-! ### the Cache-Control loop -/
+
+theorem scan_none_no_max_age (l : List Str) (h : scanCC l = .proceed none) :
+    ∀ v ∈ l, (splitEq v).1 ≠ sMaxAge := by
+  induction l with
+  | nil => simp
+  | cons x xs ih =>
+    simp only [scanCC] at h
+    split at h
+    · split at h
+      · split at h <;> cases h
+      · cases h
+    · rename_i hx
+      split at h
+      · cases h
+      · intro v hv
+        rcases List.mem_cons.mp hv with rfl | hv
+        · exact hx
+        · exact ih h v hv
+
+theorem scan_some_is_directive (l : List Str) (n : Nat) (h : scanCC l = .proceed (some n)) :
+    ∃ v ∈ l, (splitEq v).1 = sMaxAge ∧ ∃ a, (splitEq v).2 = some a ∧ isDigits a = true ∧ n = toNat a := by
+  induction l with
+  | nil => simp [scanCC] at h
+  | cons x xs ih =>
+    simp only [scanCC] at h
+    split at h
+    · rename_i hx
+      split at h
+      · rename_i a ha
+        split at h
+        · rename_i hd
+          cases h
+          exact ⟨x, by simp, hx, a, ha, hd, rfl⟩
+        · cases h
+      · cases h
+    · split at h
+      · cases h
+      · obtain ⟨v, hv, rest⟩ := ih h
+        exact ⟨v, List.mem_cons_of_mem _ hv, rest⟩
+
+/-! ### the property theorems -/
+
+/-- `VaryStable`, decidable form: all plans for one URI name the same Vary list. -/
+def varyStableB (ops : List Op) : Bool :=
+  ops.all fun o1 => ops.all fun o2 =>
+    match o1, o2 with
+    | .req r1 p1, .req r2 p2 => !(r1.uri == r2.uri) || p1.vary == p2.vary
+    | _, _ => true
+
+def VaryStable (ops : List Op) : Prop :=
+  ∀ r1 p1 r2 p2, Op.req r1 p1 ∈ ops → Op.req r2 p2 ∈ ops → r1.uri = r2.uri → p1.vary = p2.vary
+
+theorem varyStable_of_B (ops : List Op) (h : varyStableB ops = true) : VaryStable ops := by
+  intro r1 p1 r2 p2 h1 h2 hu
+  have a := List.all_eq_true.mp h _ h1
+  have b := List.all_eq_true.mp a _ h2
+  simpa [hu] using b
+
+/-- What is known about the selecting headers of a resource in a history: they are the (sorted)
+    Vary list of *some* planned response for that URI. -/
+def SelOf (ops : List Op) (uri : Str) (sel : List Str) : Prop :=
+  ∃ r0 p0, Op.req r0 p0 ∈ ops ∧ r0.uri = uri ∧ sel = sortDesc p0.vary
+
+/-- Master statement for every history: each event is `Good` w.r.t. the events before it. -/
+theorem hit_master (cfg : Cfg) (ops : List Op) (pre : List Ev) (e : Ev) (post : List Ev)
+    (hx : exec cfg {} ops = pre ++ e :: post) :
+    Good cfg (SelOf ops) (fun r p => Op.req r p ∈ ops) pre e := by
+  have h := exec_allGood (cfg := cfg) (P := SelOf ops) (Q := fun r p => Op.req r p ∈ ops)
+    (fun r p h => ⟨r, p, h, rfl, rfl⟩) ops (fun r p h => h) {} [] Inv.init
+  simpa using h.at pre e post hx
+
+/-- **C15_hit_genuine.**  In every history whose URIs keep their Vary list, a response served from the
+    cache is generation `g` of an earlier handler run for the same URI (URL + query string) whose
+    request carried the same value for every header named in that response's Vary. -/
+theorem C15_hit_genuine (cfg : Cfg) (ops : List Op) (hs : varyStableB ops = true)
+    (pre : List Ev) (e : Ev) (post : List Ev) (g a : Nat)
+    (hx : exec cfg {} ops = pre ++ e :: post) (hh : e.out = .hit g a) :
+    ∃ e' ∈ pre, e'.out = .miss g true ∧ e'.r.uri = e.r.uri ∧
+      ∀ h ∈ e'.p.vary, hget e.r h = hget e'.r h := by
+  obtain ⟨e', he', sel, hm, hu, ⟨r0, p0, hop0, hu0, hsel⟩, hq, hv, _⟩ := (hit_master cfg ops pre e post hx).1 g a hh
+  refine ⟨e', he', hm, hu, ?_⟩
+  intro h hh'
+  apply hv
+  have : p0.vary = e'.p.vary := varyStable_of_B ops hs r0 p0 e'.r e'.p hop0 hq (hu0.trans hu.symm)
+  rw [hsel, this]
+  exact (mem_sortDesc h _).mpr hh'
+
+/-- Without `VaryStable` the hit still agrees with its producer on every *selecting* header of the
+    resource (the Vary list of the first response stored for the URI). -/
+theorem C15_hit_genuine_selecting (cfg : Cfg) (ops : List Op)
+    (pre : List Ev) (e : Ev) (post : List Ev) (g a : Nat)
+    (hx : exec cfg {} ops = pre ++ e :: post) (hh : e.out = .hit g a) :
+    ∃ e' ∈ pre, e'.out = .miss g true ∧ e'.r.uri = e.r.uri ∧
+      ∃ sel, SelOf ops e.r.uri sel ∧ ∀ h ∈ sel, hget e.r h = hget e'.r h := by
+  obtain ⟨e', he', sel, hm, hu, hsel, _, hv, _⟩ := (hit_master cfg ops pre e post hx).1 g a hh
+  exact ⟨e', he', hm, hu, sel, hsel, hv⟩
+
+/-- the generation number identifies the handler run: no two handler runs share one -/
+theorem C15_generation_unique (cfg : Cfg) (ops : List Op) (pre : List Ev) (e : Ev) (post : List Ev) (g : Nat)
+    (c : Bool) (hx : exec cfg {} ops = pre ++ e :: post) (hm : e.out = .miss g c) :
+    ∀ e' ∈ pre, ∀ c', e'.out ≠ .miss g c' := by
+  intro e' he' c' h'
+  exact Nat.lt_irrefl _ ((hit_master cfg ops pre e post hx).2 g c hm e' he' g c' h')
+
+/-- **C15_fresh.**  The served response was produced no longer ago (in whole seconds) than `delay`,
+    and no longer ago than the request's `max-age` when all its max-age directives say `N`. -/
+theorem C15_fresh (cfg : Cfg) (ops : List Op) (pre : List Ev) (e : Ev) (post : List Ev) (g a : Nat)
+    (hx : exec cfg {} ops = pre ++ e :: post) (hh : e.out = .hit g a) :
+    ∃ e' ∈ pre, e'.out = .miss g true ∧ e'.t ≤ e.t ∧ (e.t - e'.t) / tps ≤ cfg.delay ∧
+      ∀ N, (∃ v ∈ e.r.cc, (splitEq v).1 = sMaxAge) →
+        (∀ v ∈ e.r.cc, (splitEq v).1 = sMaxAge → ∃ arg, (splitEq v).2 = some arg ∧ toNat arg = N) →
+        (e.t - e'.t) / tps ≤ N := by
+  obtain ⟨e', he', sel, hm, _, _, _, _, ht, ha, hd, hn, ⟨m, hscan⟩, _⟩ := (hit_master cfg ops pre e post hx).1 g a hh
+  refine ⟨e', he', hm, ht, ha ▸ hd, ?_⟩
+  intro N ⟨v, hv, hdir⟩ hall
+  cases m with
+  | none =>
+    exact absurd hdir (scan_none_no_max_age _ hscan v ((mem_sortDesc v _).mpr hv))
+  | some n =>
+    obtain ⟨v', hv', hdir', arg, harg, _, hnn⟩ := scan_some_is_directive _ n hscan
+    obtain ⟨arg2, h2, hN⟩ := hall v' ((mem_sortDesc v' _).mp hv') hdir'
+    rw [harg] at h2
+    cases h2
+    rw [← ha, ← hN, ← hnn]
+    exact hn n hscan
+
+/-- **C15_age_header.**  The `Age` header of a hit is the elapsed time since the handler run that
+    produced the response, in whole seconds (`tps` ticks per second). -/
+theorem C15_age_header (cfg : Cfg) (ops : List Op) (pre : List Ev) (e : Ev) (post : List Ev) (g a : Nat)
+    (hx : exec cfg {} ops = pre ++ e :: post) (hh : e.out = .hit g a) :
+    ∃ e' ∈ pre, e'.out = .miss g true ∧ a = (e.t - e'.t) / tps := by
+  obtain ⟨e', he', sel, hm, _, _, _, _, _, ha, _⟩ := (hit_master cfg ops pre e post hx).1 g a hh
+  exact ⟨e', he', hm, ha⟩
+
+/-- **C15_no_store** (histories).  A response served from the cache was produced by a request without
+    `no-store`, carried neither `Cache-Control: no-store` nor `Pragma: no-cache`, was non-empty and
+    below the per-object size limit, and its request method was not an invalidating one. -/
+theorem C15_no_store (cfg : Cfg) (ops : List Op) (pre : List Ev) (e : Ev) (post : List Ev) (g a : Nat)
+    (hx : exec cfg {} ops = pre ++ e :: post) (hh : e.out = .hit g a) :
+    ∃ e' ∈ pre, e'.out = .miss g true ∧ Storable cfg e' := by
+  obtain ⟨e', he', sel, hm, _, _, _, _, _, _, _, _, _, hst⟩ := (hit_master cfg ops pre e post hx).1 g a hh
+  exact ⟨e', he', hm, hst⟩
+
+/-- **C15_no_store** (one request).  A request carrying `Cache-Control: no-store`, or whose response
+    carries `Cache-Control: no-store` / `Pragma: no-cache`, adds nothing to the store (for any
+    state of the cache whatsoever): every resource, selecting-header list and stored response
+    after the request was there before it. -/
+theorem C15_no_store_step (cfg : Cfg) (w : World) (r : Req) (p : Plan)
+    (h : sNoStore ∈ r.cc ∨ p.noStore = true ∨ p.pragmaNoCache = true) :
+    Shrinks (request cfg w r p).1.cache.store w.cache.store :=
+  request_marked_shrinks cfg w r p h
+
+/-- **C15_invalidate.**  From any state: after a request with an invalidating method for a URI,
+    whatever happens to other URIs and however the clock and the sweeper run, the next request
+    for that URI reaches the handler. -/
+theorem C15_invalidate (cfg : Cfg) (w : World) (r : Req) (p : Plan) (mid : List Op) (r2 : Req) (p2 : Plan)
+    (hm : r.method ∈ cfg.invalid) (hmid : ∀ r' p', Op.req r' p' ∈ mid → r'.uri ≠ r.uri)
+    (h2 : r2.uri = r.uri) :
+    ∃ c, (request cfg (runOps cfg (request cfg w r p).1 mid) r2 p2).2
+      = .miss (runOps cfg (request cfg w r p).1 mid).nextGen c := by
+  apply request_absent
+  rw [h2]
+  exact runOps_absent cfg mid _ r.uri hmid (request_invalidates cfg w r p hm)
+
+/-- the invalidating request itself reaches the handler too, and is never stored -/
+theorem C15_invalidating_request_not_cached (cfg : Cfg) (w : World) (r : Req) (p : Plan)
+    (hm : r.method ∈ cfg.invalid) : (request cfg w r p).2 = .miss w.nextGen false := by
+  unfold request
+  rw [if_pos hm]
+
+/-- the live table of invalidating methods (regenerated from `caching.get`'s signature on every
+    run) contains the three methods the property names -/
+theorem C15_invalidate_methods :
+    ['P', 'O', 'S', 'T'] ∈ Gen.C15.invalidMethods ∧ ['P', 'U', 'T'] ∈ Gen.C15.invalidMethods ∧
+      ['D', 'E', 'L', 'E', 'T', 'E'] ∈ Gen.C15.invalidMethods := by decide
+
+/-- and does not contain the methods that are served from the cache -/
+theorem C15_get_head_not_invalidating :
+    ['G', 'E', 'T'] ∉ Gen.C15.invalidMethods ∧ ['H', 'E', 'A', 'D'] ∉ Gen.C15.invalidMethods := by decide
+
+/-- `Pragma: no-cache` on the request: the handler is reached (from any state). -/
+theorem C15_pragma_no_cache (cfg : Cfg) (w : World) (r : Req) (p : Plan) (h : sNoCache ∈ r.pragma) :
+    ∃ c, (request cfg w r p).2 = .miss w.nextGen c := by
+  unfold request
+  split
+  · exact ⟨false, rfl⟩
+  · exact ⟨true, rfl⟩
+
+/-! ### size accounting -/
+
+/-- **C15_size_bounds.**  In every history `cursize` is never negative, is `0` or below `maxsize`,
+    and covers the sizes of all entries still waiting in `expirations`. -/
+theorem C15_size_bounds (cfg : Cfg) (ops : List Op) :
+    0 ≤ (runOps cfg {} ops).cache.cursize ∧
+    ((runOps cfg {} ops).cache.cursize = 0 ∨ (runOps cfg {} ops).cache.cursize < cfg.maxsize) ∧
+    (sumSizes (runOps cfg {} ops).cache.exps : Int) ≤ (runOps cfg {} ops).cache.cursize := by
+  have h := runOps_sizeInv (cfg := cfg) ops {} (SizeInv.init cfg)
+  exact ⟨h.nonneg, h.bound, h.sum⟩
+
+theorem runOps_inv (hPQ : ∀ r p, Q r p → P r.uri (sortDesc p.vary)) (ops : List Op)
+    (hops : ∀ r p, Op.req r p ∈ ops → Q r p) (w : World) (L : List Ev) (hI : Inv cfg P Q w L) :
+    Inv cfg P Q (runOps cfg w ops) (L ++ exec cfg w ops) := by
+  induction ops generalizing w L with
+  | nil => simpa [runOps, exec] using hI
+  | cons op ops ih =>
+    have hs := step_inv hI op hPQ (fun r p h => hops r p (by simp [h]))
+    have hops' : ∀ r p, Op.req r p ∈ ops → Q r p := fun r p h => hops r p (List.mem_cons_of_mem _ h)
+    simp only [exec, runOps]
+    split
+    · rename_i e he
+      rw [he] at hs
+      have := ih hops' _ _ hs.2
+      simpa using this
+    · rename_i he
+      rw [he] at hs
+      exact ih hops' _ _ hs
+
+/-- every response in the store at the end of any history was produced by a handler run of that
+    history for that URI, was storable, non-empty and smaller than `maxobj_size` -/
+theorem C15_stored_objects (cfg : Cfg) (ops : List Op) (uri : Str) (uc : UriCache) (key : List Str) (v : Variant)
+    (h1 : aget (runOps cfg {} ops).cache.store uri = some uc) (h2 : aget uc.slots key = some (.val v)) :
+    ∃ e ∈ exec cfg {} ops, e.out = .miss v.gen true ∧ e.r.uri = uri ∧ v.created = e.t ∧
+      0 < e.p.size ∧ e.p.size < cfg.maxobjSize ∧ Storable cfg e := by
+  have hI := runOps_inv (cfg := cfg) (P := SelOf ops) (Q := fun r p => Op.req r p ∈ ops)
+    (fun r p h => ⟨r, p, h, rfl, rfl⟩) ops (fun r p h => h) {} [] Inv.init
+  obtain ⟨e, he, a, b, _, d, st⟩ := hI.vals uri uc key v h1 h2
+  exact ⟨e, by simpa using he, a, b, d, st.2.2.2.1, st.2.2.2.2.1, st⟩
+
+/-! ### the statement without `VaryStable` is false (finding F16b) -/
+
+/-- C15_hit_genuine without the hypothesis that a URI keeps its Vary list. -/
+def C15_hit_genuine_full : Prop :=
+  ∀ (cfg : Cfg) (ops : List Op) (pre : List Ev) (e : Ev) (post : List Ev) (g a : Nat),
+    exec cfg {} ops = pre ++ e :: post → e.out = .hit g a →
+    ∃ e' ∈ pre, e'.out = .miss g true ∧ e'.r.uri = e.r.uri ∧ ∀ h ∈ e'.p.vary, hget e.r h = hget e'.r h
+
+def wCfg : Cfg := { delay := 10, maxobjects := 1000, maxobjSize := 100000, maxsize := 10000000 }
+def hXA : Str := ['X', '-', 'A']
+def hXB : Str := ['X', '-', 'B']
+def wReq (a b : Char) : Req :=
+  { method := ['G', 'E', 'T'], uri := ['/', 'a'], hdrs := [(hXA, [a]), (hXB, [b])], pragma := [], cc := [] }
+def wPlan (vary : List Str) : Plan := { vary := vary, size := 12, noStore := false, pragmaNoCache := false }
+
+/-- the witness history of F16b: the first response varies on X-A only, the second on X-A and X-B -/
+def wOps : List Op :=
+  [.req (wReq '1' 'p') (wPlan [hXA]), .req (wReq '2' 'p') (wPlan [hXA, hXB]), .req (wReq '2' 'q') (wPlan [hXA, hXB])]
+
+theorem C15_hit_genuine_full_false : ¬ C15_hit_genuine_full := by
+  intro h
+  have := h wCfg wOps ((exec wCfg {} wOps).take 2) ⟨wReq '2' 'q', wPlan [hXA, hXB], .hit 2 0, 0⟩ [] 2 0
+    (by decide) rfl
+  revert this
+  decide
+
+/-- non-vacuity of `VaryStable`: a history with two URIs, Vary lists, a hit and a sweep satisfies it -/
+example : varyStableB
+    [.req (wReq '1' 'p') (wPlan [hXA, hXB]), .tick 3, .req (wReq '1' 'p') (wPlan [hXA, hXB]), .sweep,
+     .req { wReq '1' 'q' with uri := ['/', 'b'] } (wPlan [])] = true := by decide
+
+/-- non-vacuity of the hit theorems: that history does contain a hit (generation 1, Age 0) -/
+example : (exec wCfg {}
+    [.req (wReq '1' 'p') (wPlan [hXA, hXB]), .tick 3, .req (wReq '1' 'p') (wPlan [hXA, hXB])]).map (·.out)
+      = [.miss 1 true, .hit 1 0] := by decide
+
+/-- ... and the F16b witness is excluded by the hypothesis -/
+example : varyStableB wOps = false := by decide
+
 end CpProofs.C15
